@@ -133,6 +133,7 @@ def float_oracle(ctx):
 def run(ctx):
     C.ensure_impl_path()
     stft.regenerate(ctx)
+    stft.regenerate_si(ctx)
     pr = C.proof_step(ctx)
     cases = gen_cases(ctx)
     # corpus of earlier failures first
